@@ -45,3 +45,60 @@ def sym_tuple(it, name: str):
     st = it.st
     l = st.fresh(name, V.Lst)
     return V.VTup(l)
+
+
+def repo_class(it, relfile: str, name: str):
+    """Register (if needed) and return the RepoClass info of a class of the repository."""
+    mod = it.engine.repo.module_for_file(relfile)
+    v = it.module_symbol(mod, name)
+    c = it.st.simp(V.cid(v)).as_long()
+    return it.ct.info[c]
+
+
+def sym_instance(it, relfile: str, clsname: str, name: str = "self"):
+    info = repo_class(it, relfile, clsname)
+    return it.st.sym_ref(name, info.cid), info
+
+
+def method(it, info, obj, name: str) -> FuncV:
+    m = info.find_method(name)
+    if m is None:
+        from pyvc.repo import FunctionNotFound
+        raise FunctionNotFound(f"{info.name}.{name}")
+    return it.bind_method(info, m, obj)
+
+
+def is_instance_of(it, v, clsname: str):
+    return z3.And(V.is_ref(v), V.class_of(V.addr(v)) == it.ct.id(clsname))
+
+
+def fresh_input_ref(it, name: str):
+    """An unknown pre-existing heap object (address in the input range)."""
+    st = it.st
+    a = st.fresh(name, I)
+    st.assume(z3.And(a >= 0, a < 1_000_000))
+    return V.VRef(a)
+
+
+def forall(vs, body, patterns=None):
+    """ForAll with explicit patterns when z3 accepts them (patterns over lambda/ite terms are
+    rejected: fall back to automatic pattern inference / MBQI)."""
+    if patterns and all(_pattern_ok(p) for p in patterns):
+        try:
+            return z3.ForAll(vs, body, patterns=patterns)
+        except z3.Z3Exception:
+            pass
+    return z3.ForAll(vs, body)
+
+
+def _pattern_ok(t) -> bool:
+    todo = [t]
+    while todo:
+        x = todo.pop()
+        if z3.is_quantifier(x):
+            return False
+        if z3.is_app(x) and x.decl().kind() in (z3.Z3_OP_ITE, z3.Z3_OP_AND, z3.Z3_OP_OR, z3.Z3_OP_NOT,
+                                                z3.Z3_OP_EQ, z3.Z3_OP_IMPLIES):
+            return False
+        todo.extend(x.children())
+    return True
